@@ -25,18 +25,19 @@ handle ever taken is probed after every operation.
 
 Known defects of the pinned tree (KNOWN_FINDINGS.txt; witnesses corpus/C13/finding_*.json, all replayed
 through (P) on every run).  Repaired in /repo and no longer avoided: D14 and C13b (9ebab50), C13c (76f1b96);
-their witnesses must pass now - a failure is a (P) failure.
+their witnesses must pass now - a failure is a (P) failure.  Repair a66156d (every re-inheritance pass
+discards the ItemSpaces of the spaces it visits, whether or not their lazy namespace had been evaluated)
+is mirrored in Alive/Model.v (inherit_roots) and made the former avoidance 'stale_ns' unnecessary: the
+members of a space may now change through inheritance while ItemSpaces hold copies of it
+(corpus/C13/reinherit_*.json: directed cases, (T) and (P)).
 The generator (on-line, in the driver: deletion_triggers) evaluates the trigger predicates on the
 live model and does not draw the operation (counted in distribution):
   C13a  deleting a space one of whose *child* spaces is a base of another space
   C13e  deleting a space that has a sub space inside its own tree (KeyError half-way, stale graph)
   D3    remove_bases / del space when a sub space inherits along two routes (IndexError half-way)
-  stale_ns  (not a defect of C13; lazy namespaces are not modelled in this layer) the members of a space
-        change through inheritance (add_bases / remove_bases / a base member or base space is deleted) while an
-        ItemSpace of a containing space holds a copy of it: the library discards that ItemSpace only if the
-        namespace of the space had been looked at since its last change
   D22/D21 (values through an attribute path), D23 (rename) are outside the generator's vocabulary: witnesses only.
 corpus/C13/input_*.json: input values (outside the model's vocabulary) of deleted cells, (P) only.
+corpus/C13/reinherit_*.json: re-inheritance over spaces without cells / with unchanged members, (T) and (P).
 Operations refused for lack of a C3 order are dropped (counted: no_mro)."""
 import os, json, glob
 import fw
@@ -50,7 +51,7 @@ TRUSTED = ["C3 linearisation is not modelled in this layer: the existence of a d
 ASSUMPTIONS = ["vocabulary: spaces, cells (cached, one parameter, formulas: constant / sibling call / call through a model-level "
                "reference), ItemSpaces of static spaces, model-level references to spaces; no renaming, no input values, "
                "no uncached cells, no space-level references",
-               "known-defect triggers C13a C13e D3 and the lazy-namespace case stale_ns avoided by the generator (see module docstring)"]
+               "known-defect triggers C13a C13e D3 avoided by the generator (see module docstring)"]
 CORPUS = os.path.join(fw.VERIF, "corpus", "C13")
 
 PROFILES = {
